@@ -225,10 +225,10 @@ theorem not_fail_keeps_expiry (kc : Cfg) (h : kc.incFailClean = false) : ¬ Fail
   intro hh
   have := hh Hv.C06.ar0 0 { recs := [("a", { c := { val := .int .i64 5 } })] } (.int .i64) "a" 1 (some (.eq, 77)) none
     (some { exp := some 200 }) (.int .i64 5) (some { exp := 200 })
-    (by simp [Model.incCore, Model.createTreasure, AL.find, Model.incStart, Content.vis, condHolds, numCmp, numOf, numVal,
+    (by simp [Model.incCore, Model.createTreasure, AL.find, Model.incStart, Content.vis, condHolds, numCmp, numWrap, IntTy.wrap, IntTy.bits, IntTy.signed, numOf, numVal,
           Model.applyIncMeta, metaResp, h, Val.scalar]) "a"
   revert this
-  simp [Model.incCore, Model.createTreasure, AL.find, AL.has, AL.insert, Model.incStart, Content.vis, condHolds, numCmp, numOf,
+  simp [Model.incCore, Model.createTreasure, AL.find, AL.has, AL.insert, Model.incStart, Content.vis, condHolds, numCmp, numWrap, IntTy.wrap, IntTy.bits, IntTy.signed, numOf,
     numVal, Model.applyIncMeta, Model.park, h, Val.scalar]
 
 /-- **C30**, as far as it is proved: every expiry-aware site decides by the definition (`Holds`),
